@@ -64,8 +64,14 @@ def apply (ge : C → C → Bool) (cname : P → C → P) (a b : List (P × Fp C
     (copyLive l.A p l.B p).map fun B' => ({ l with B := B', common := cInsOpt l.common p (lookup a p) }, false)
   | .propagateBtoA =>
     (copyLive l.B p l.A p).map fun A' => ({ l with A := A', common := cInsOpt l.common p (lookup b p) }, false)
-  | .deleteA => some ({ l with A := del l.A p, common := cDel l.common p }, false)
-  | .deleteB => some ({ l with B := del l.B p, common := cDel l.common p }, false)
+  -- a planned delete is re-validated against the LIVE other side (D16 repair): if this run has put a
+  -- file there meanwhile (a conflict-copy carrying this name), nothing is removed and nothing recorded
+  | .deleteA =>
+    if (get l.B p).isSome then some (l, false)
+    else some ({ l with A := del l.A p, common := cDel l.common p }, false)
+  | .deleteB =>
+    if (get l.A p).isSome then some (l, false)
+    else some ({ l with B := del l.B p, common := cDel l.common p }, false)
   | .conflict .deleteVsModify =>
     if (lookup a p).isSome then
       (copyLive l.A p l.B p).map fun B' => ({ l with B := B', common := cInsOpt l.common p (lookup a p) }, false)
